@@ -1,5 +1,6 @@
 """C09 — Delay and cancel requests affect only the coroutine that made them (structural clauses)."""
 from rules.common import start
+from rules import wave3
 from rules import wave2
 from rules import coro, pool
 
@@ -19,4 +20,7 @@ def run(tier):
     # clauses added for the wave-2 seeds (rules/wave2.py; DESIGN 12a)
     for _cfg, f in fx.items():
         wave2.request_pairing_rule(run, f, "C09-REQUEST-PAIRING")
+    # clauses added for the wave-2 seeds (rules/wave2.py; DESIGN 12a)
+    for _cfg, f in fx.items():
+        wave3.no_exit_before_yield_rule(run, f, "C09-NO-EXIT-BEFORE-YIELD")
     return run.finish()
